@@ -50,6 +50,13 @@ class ParseHarness:
 
     def doc(self, v):
         cells = [v[f"c{i}"] for i in range(len(self.holes))]
+        if self.p.get("alphabet"):
+            for c in cells:
+                if not docs.in_alphabet(c, self.p["alphabet"]):
+                    return None
+            # tiny alphabet: let the solver enumerate it now (cheaper than carrying the cells
+            # through CrossHair's Unicode tables; same policy as DESIGN 2.7)
+            cells = [env.realize(c) for c in cells]
         for c in cells:
             if not valid_cell(c):
                 return None
@@ -58,13 +65,6 @@ class ParseHarness:
                 if not docs.in_finite(c):
                     return None
             # hashing site ahead (DESIGN 2.7): let the solver enumerate the finite alphabet now
-            cells = [env.realize(c) for c in cells]
-        if self.p.get("alphabet"):
-            for c in cells:
-                if not docs.in_alphabet(c, self.p["alphabet"]):
-                    return None
-            # tiny alphabet: let the solver enumerate it now (cheaper than carrying the cells
-            # through CrossHair's Unicode tables; same policy as DESIGN 2.7)
             cells = [env.realize(c) for c in cells]
         for i, k in enumerate(self.p.get("classes") or []):
             if not docs.in_class(cells[i], k):
